@@ -967,8 +967,8 @@ func c32(sum *lib.Summary) {
 				}
 				return "false"
 			}
-			shift := big.NewInt(0)
-			if b.IsUint64() {
+			shift := big.NewInt(0) // only read by the shift estimators, whose amounts are small
+			if b.BitLen() <= 192 {
 				shift = b
 			}
 			return fmt.Sprintf("{| s_wa := %d; s_wb := %d; s_a_ge0 := %s; s_a_le0 := %s; s_b_ge0 := %s; s_b_le0 := %s; s_lt := %s; s_blb := %d; s_b_zero := %s; s_shift := %s |}",
